@@ -67,8 +67,6 @@ var simplifyTests = [...]simplifyTest{
 	{`"fo\$o"`, `'fo$o'`},
 	{`"fo\"o"`, `'fo"o'`},
 	{"\"fo\\`o\"", "'fo`o'"},
-	noSimple(`$"fo\\bo"`),
-	noSimple(`$"fo\$o"`),
 	noSimple(`fo"o"bar`),
 	noSimple(`foo""bar`),
 }
